@@ -22,6 +22,12 @@ def run(tier, seed):
         run_hex(rep, f"HVxSL direct prune={prune} (empty key, 20-byte key, two 34-byte keys)", universe="HV", values=("S", "L"), prune=prune, props=P)
         run_hex(rep, f"HW4 x single-byte / RLP-boundary values prune={prune}", universe="HW4", values=("Z00", "B80", "V55", "V56"), prune=prune, props=P)
         run_hex(rep, f"HL4xST29X direct prune={prune} (32-byte keys, long extensions, 60-byte values)", universe="HL", values=("S", "T29", "X"), prune=prune, props=P)
+    for prune in (False, True):
+        run_hex(rep, f"H4xSL chains of 3 consecutive operations on ONE live object prune={prune}", universe="H4", values=("S", "L"), prune=prune,
+                props=P, chain=3)
+        run_hex(rep, f"HP3 x sentinel-valued contents prune={prune}", universe="HP3", values=("S", "VBNH", "VBH"), prune=prune, props=P)
+        run_hex(rep, f"HT x one-byte values around 0x80 prune={prune} (55-nibble leaf paths: node sizes 31 / 32)", universe="HT",
+                values=("B7f", "B80", "Bff"), prune=prune, props=P)
     if tier == "thorough":
         sweep = ("S", "T26", "T27", "T28", "T29", "T30", "L", "X")
         for prune in (False, True):
